@@ -370,6 +370,28 @@ impl Check for C08 {
                 }
             }
         });
+        // rings: two arcs round the same centre, each sense and each length of sweep (the hole of a
+        // NonZero ring exists only when the two contours really turn in opposite senses)
+        let rs: Vec<f32> = vec![2. * pi, -2. * pi, 7., -7., 1.75 * pi, -1.75 * pi];
+        run.bound("arc rings", format!("outer arc (r 5) and inner arc (r 2.5) x {}^2 sweeps x 4 start angle pairs x 2 rules x separate / continued subpaths x fill/clip on 12x12", rs.len()));
+        run.par(rs.len() * rs.len(), |s, l| {
+            let (s1, s2) = (rs[s / rs.len()], rs[s % rs.len()]);
+            for (a1, a2) in [(0.0f32, 0.0f32), (0.3, 2.0), (pi, -1.0), (5.5, 0.0)] {
+                for eo in [false, true] {
+                    for sep in [false, true] {
+                        let mut ops = vec![POp::A(6.0, 6.0, 5.0, a1, s1), POp::Z];
+                        if sep {
+                            ops.push(POp::M(6.0 + 2.5 * a2.cos(), 6.0 + 2.5 * a2.sin()));
+                        }
+                        ops.push(POp::A(6.0, 6.0, 2.5, a2, s2));
+                        ops.push(POp::Z);
+                        for clip in [false, true] {
+                            account(run, 35_000 + s, l, &Case { w: 12, path: PathSpec { evenodd: eo, ops: ops.clone() }, xf: IDENT, clip, pre: false }, false);
+                        }
+                    }
+                }
+            }
+        });
         // large curves on 36x36
         let gl = grid(&PTS5L);
         let gl_q = grid(&[-6., 18., 42.]);
